@@ -161,4 +161,21 @@ PROPS = {
         "quick": {"runs": [{"test": "^TestC09$", "shards": 16, "checks": 250, "timeout": 600}]},
         "thorough": {"runs": [{"test": "^TestC09$", "shards": 16, "checks": 4000, "timeout": 3400}]},
     },
+    "C10": {
+        "title": "Folder transfers reproduce the tree, item by item",
+        "level": "exploration",
+        "rule": "rapid-generated directory trees (depth <= 4, fan-out <= 6, <= 40 entries quick / 300 thorough, empty folders, zero-length files, "
+                "dot-files and dot-folders in download trees, ASCII Mac-Roman names) and (download) a per-file action script send / resume at "
+                "offset {size, 1, size-1, proportional} / skip, (upload) a server pre-seeded with complete files and partial .incomplete files; "
+                "oracle download: announced item count == headers received == depth-first lexical list of entries whose own name has no leading "
+                "dot, each once with relative path and kind, size prefix == bytes that follow == header + size - offset, bytes == content[offset:]; "
+                "oracle upload: server answers == {next, send, resume:<partial size>} per item, resulting tree == streamed tree, and downloading "
+                "the uploaded folder returns the same tree; non-trivial = tree has a nested folder and a file AND (a resume/skip action | "
+                "pre-seeded files); distinct = hash(direction, tree, script/seed)",
+        "assumptions": ["PreserveResourceForks off, plain files without stored forks (the property's quantifier); stored-fork behaviour is only an observation in DESIGN.md"],
+        "quick": {"runs": [{"test": "^TestC10Download$", "shards": 8, "checks": 250, "timeout": 600},
+                           {"test": "^TestC10Upload$", "shards": 8, "checks": 250, "timeout": 600}]},
+        "thorough": {"runs": [{"test": "^TestC10Download$", "shards": 8, "checks": 3000, "timeout": 3400},
+                              {"test": "^TestC10Upload$", "shards": 8, "checks": 3000, "timeout": 3400}]},
+    },
 }
